@@ -359,7 +359,12 @@ func (ctx *Context) LoadNameWithDetail(name string, isRaw bool, useHook bool, de
 	// 先local再global
 	curCtx := ctx
 	for {
+		opCountBefore := curCtx.NumOpCount
 		ret := curCtx.LoadNameLocalWithDetail(name, isRaw, detail)
+		if curCtx != ctx {
+			// 在外层上下文中找到的计算值，其消耗记在外层的计数上，而当前函数返回时外层计数会被当前计数覆盖，需要同步到当前上下文
+			ctx.NumOpCount += curCtx.NumOpCount - opCountBefore
+		}
 
 		if curCtx.Error != nil {
 			ctx.Error = curCtx.Error
